@@ -758,7 +758,7 @@ def resolved(expr, funcnode, depth=4):
     return Sub(depth).visit(_clone_ast(expr))
 
 
-def received_bytes_lost(cfg, funcnode, sink, is_source):
+def received_bytes_lost(cfg, funcnode, sink, is_source, initial=()):
     """conservation of received data: a local that holds bytes taken from a source call (`data = self.recv()`) - or a local
     buffer such bytes were appended to - must be handed on before the function ends: appended / assigned to the persistent
     buffer `sink` (an attribute expression given as source text), moved into another local (which then carries the duty),
@@ -775,7 +775,7 @@ def received_bytes_lost(cfg, funcnode, sink, is_source):
             for x in ast.walk(t):
                 if isinstance(x, ast.Name) and isinstance(x.ctx, ast.Store):
                     names.add(x.id)
-                if isinstance(x, ast.Attribute) and src(x) == sink:
+                if isinstance(x, ast.Attribute) and (sink(src(x)) if callable(sink) else src(x) == sink):
                     to_sink = True
         return names, to_sink
 
@@ -815,8 +815,7 @@ def received_bytes_lost(cfg, funcnode, sink, is_source):
                 out.add(a.left.id)
         return out
 
-    ins = {cfg.entry: {frozenset()}}
-    work = [(cfg.entry, frozenset())]
+    work = [(cfg.entry, frozenset(initial))]
     seen = set()
     lost = {}
     while work:
